@@ -3,6 +3,7 @@ import Dtn7.Model.Bundle
 import Dtn7.Model.BundleSpec
 import Dtn7.Lemmas.Mtcp
 import Dtn7.Lemmas.BundleTop
+import Dtn7.Lemmas.BundleStable
 
 /-!
 MTCP over the REAL bundle codec (C01): the abstract `Mtcp.Codec` instantiated with
@@ -50,5 +51,21 @@ theorem codec_good (cfg : Cfg) (hs : cfg.strict = true) (now : Nat) :
     intro b _
     simp [codec, serializeRaw]
   small := fun _ h => h.2.2
+
+/-- The real parser is extension-stable (`Dtn7.Bundle.Stable.parse_stable`), hence so is the codec. -/
+theorem codec_stable (cfg : Cfg) (now : Nat) (p : Bytes) (x : Bundle) (r t : Bytes)
+    (h : (codec cfg now).parse p = .ok (x, r)) : (codec cfg now).parse (p ++ t) = .ok (x, r ++ t) := by
+  rw [codec_parse_ok] at h ⊢
+  exact Dtn7.Bundle.Stable.parse_stable cfg now p x r t h
+
+/-- **A truncated encoding is not a bundle**: no strict prefix of a sendable bundle's serialisation is accepted
+by `Bundle.UnmarshalCbor` (as any bundle, with any rest). The indefinite array is closed only by the final break
+byte and every block is length-delimited; formally: exact consumption + extension stability. -/
+theorem parse_truncated (cfg : Cfg) (hs : cfg.strict = true) (now : Nat) (b : Bundle) (hb : Sendable cfg now b)
+    (k : Nat) (hk : k < (serializeRaw b).length) (x : Bundle × Bytes) :
+    parse cfg now ((serializeRaw b).take k) ≠ .ok x := by
+  intro h
+  exact cut_of_stable (codec cfg now) (codec_good cfg hs now) (codec_stable cfg now) b hb k hk x
+    ((codec_parse_ok cfg now _ x).mpr h)
 
 end Dtn7.Mtcp.Bundles
